@@ -254,6 +254,32 @@ def crash_features(case):
     return trace, kinds
 
 
+
+def trace_features(case):
+    kinds = set()
+    trace = []
+    for op in case["ops"][1:]:
+        w = op.split()
+        if len(w) >= 2:
+            trace.append(op)
+            classes = {e.split(":")[-1].split("#")[0] for e in w[2:] if e.startswith("a:")}
+            nested = 0
+            held = 0
+            for e in w[2:]:
+                if e.startswith("a:"):
+                    held += 1
+                    nested = max(nested, held)
+                elif e.startswith("r:"):
+                    held -= 1
+            if nested >= 2:
+                kinds.add("nested")
+            if nested >= 3:
+                kinds.add("nested3")
+            if len(classes) >= 4:
+                kinds.add("many-classes")
+    return trace, kinds
+
+
 VEC_RULE = (
     "histories generated by harness/src/vec_engine.rs over 14 format×type combinations (BytesVec u16/u64/u128/f32, ZeroCopyVec u32/u64, "
     "PcoVec u32/u64/i64/f64, LZ4Vec u64/u128, ZstdVec u16/u32), values incl. 0, MAX, sign boundary and random bit patterns, bulk pushes of "
@@ -292,6 +318,9 @@ ENGINES.append({"name": "lazy", "path": "harness/src/lazy_engine.rs + lean/Drive
 
 ENGINES.append({"name": "crash", "path": "harness/src/crash_engine.rs (+ rawdb driver protocol)", "serves_properties": ["C05", "C12"],
      "kind_free_text": "records every effect on the two files through the guarded durability tap while a generated history runs on the real rawdb, builds crash images (sync-only, all-written, single-page deviations, random per-page mixtures of versions) at every event boundary after the first flush and runs the real Database::open on each; compares the per-request event stream with the Lean model's; checks compact's frame conditions on the real database"})
+
+ENGINES.append({"name": "sched", "path": "harness/src/sched_engine.rs + lean/Driver/LocksProto.lean", "serves_properties": ["C11", "C09", "C10"],
+     "kind_free_text": "trace mode: 48 operation × state scenarios of rawdb and vecdb run alone under the guarded lock shim, acquisition traces checked by the Lean driver against the lock order; directed schedules (C09/C10): threads stopped at lock requests / pause points while another thread runs a script"})
 
 NOT_CLAIMED = {}
 
@@ -456,6 +485,17 @@ PROPS = {
         level_text="Lean 4 theorems on the model of compact = flush; punch_holes: punch_holes changes no slot, no layout map and not the file length (C12_meta_unchanged, C12_compact_len); every byte range disjoint from all candidate ranges (reserve tails and free extents) reads the same before and after (C12_frame, by induction over both loops); a region's tail candidate starts at or above the end of its contents on a page boundary (C12_tail_above_data); compact flushes first and, by C05_order, extents are promoted — become candidates — only after the metadata sync that made their release durable (C12_order). On the real code the crash engine checks before/after every compact: bytes, length, placement of all live regions and the file length unchanged; every punched range inside a (coalesced) free extent or a reserve tail; crash points inside compact satisfy the C05 oracles.",
         level_note="Trusted: as C05. The race of compact against a writer extending a region into its reserve (F16 of the design reading) needs a thread schedule and is NOT decided by this check; sequential histories only.",
         technique="Lean 4 proof (frame of hole punching over the candidate loops) + before/after and crash-image validation on the real compact",
+    ),
+    "C11": dict(
+        lean="AnyDB.Props.C11",
+        runs=[
+            Run("sched", "traces", ["--total-cases", "12"], (12, 0), (12, 0), proj_all, ["C11", "panic"], trace_features, clean=False, driver_engine="locks"),
+        ],
+        rule="the fixed list of 48 operation × state scenarios (each placement path of a region write, truncate, rename, remove, retain, region/database flush, compact inline and in the background, reader life cycle, set_min_len/regions, vector import / write in each regime / flush / commit+rollback / reset / remove, read paths of read-write vectors and read-only clones incl. the file-IO sources, EagerVec compute) is run completely in both tiers, 4 per case; a case is non-trivial when a trace nests locks (≥2 held) and touches ≥4 lock classes or nests 3; distinct = distinct traces",
+        assumptions=["parking_lot RwLock is writer-preferring and guards release on drop (the model's lock semantics)", "instances of one lock class are merged in the abstract system: coarser locks only add blocking", "documented misuse (a reader kept alive across another call on the same thread) is not generated; acquisitions inside Database::open are exempt (the handle is not shared yet)"],
+        level_text="Lean 4 theorem C11_progress / C11_reachable_progress: in every state reachable by ANY schedule of ANY number of threads whose programs respect one strict lock order (writer-preferring read-write locks), if some thread is unfinished then some thread is enabled — nobody blocks forever; steps preserve well-formedness; the executable per-trace check of the driver is proved equivalent to the discipline (C11_check_sound) and a system assembled from accepted traces is well formed (C11_accepted_traces_wf); the rank table is a linear order (C11_rank_strict). This reduces the property to a per-operation obligation — every acquisition trace of every public operation respects the order — which is checked on traces recorded from the real code through the guarded lock shim for every scenario. Traces that violate the order are reported with the offending held→requested pair; a schedule that deadlocks the real code is not searched for automatically (no-failing-input-found in that case).",
+        level_note="Trusted: Lean kernel + standard axioms; the lock shim (thin wrapper over parking_lot reporting request/acquired/released); scenario coverage of lock-acquisition paths (listed in evidence). F12 repaired by a fix: commit; F13 (compressed read paths vs write holding the page-index lock) is a known finding.",
+        technique="Lean 4 proof (lock-order discipline ⇒ progress under writer-preferring RW locks) + per-operation acquisition traces from the real code checked against the order",
     ),
     "C13": dict(
         lean="AnyDB.Props.C13",
